@@ -2,8 +2,10 @@
    float-valued results over QN = option Q (None = NaN), for every size of every array.
    amplitudes_true_Q, mean_amps_Q, waveform_durations_Q, get_depths_Q are the model of Model.v (the
    operation sequence of phylib's code) instantiated with exact rational operations. *)
-From Coq Require Import ZArith QArith List Bool Sorted Lia.
+From Coq Require Import ZArith QArith Qabs List Bool Sorted Lia.
 From PV Require Import C09.Model C09.Spec C09.Proofs C09.Proofs2 C09.Proofs3 C09.Proofs4 C09.Proofs5.
+From PV Require Import C09.Spec2 C09.Proofs6 C09.Link.
+From PV Require C05.Model C05.Spec C05.Props Base.NpSort.
 Import ListNotations.
 Open Scope Z_scope.
 
@@ -182,3 +184,184 @@ Example C09_ex_depths :      (* batch size 2: two batches; spike 1 has no positi
   option_map (option_map (map (fun x => match x with Some q => Some (Qred q) | None => None end)))
              (get_depths_Q 2 ex_depth) = Some (Some [Some (10 # 1); None; Some (30 # 1)]%Q).
 Proof. split; vm_compute; reflexivity. Qed.
+
+(* =====================================================================================================
+   Stage 3: the boundary of C09_rescaled_peak as theorems, checker completeness, outcomes outside the
+   dense reading, and the link to C05 (get_template on dense storage).
+   ===================================================================================================== *)
+
+(* OUTSIDE the guard "mean amplitude >= 0" of C09_rescaled_peak: for a non-flat template (au > 0) and ANY sign
+   of the per-template amplitude v, the rescaled template is the unwhitened template times K = v / au (negative
+   for a negative v: the template is flipped) and its largest channel peak-to-peak is |v| -- so "exactly that
+   peak amplitude" holds iff v >= 0, and C09_rescaled_peak is the case v >= 0 of this theorem. *)
+Theorem C09_rescaled_abs : forall (i : amp_in) (factor : Q) (o : amp_out QN) (n : nat) (t : mat) (v : Q) (au : Z),
+  amplitudes_true_Q i (Some factor) = Some o ->
+  nth_error (ai_data i) n = Some t -> Z.of_nat n < ai_nwav i ->
+  nth_error (ao_tamps o) n = Some (Some v) ->
+  IsPeakAmp (unwh (ai_wmi i) t) (length t) (length (ai_wmi i)) au -> 0 < au ->
+  Spec_rescaled_abs i t au v (nth n (ao_phys o) []).
+Proof. exact rescaled_abs_thm. Qed.
+Print Assumptions C09_rescaled_abs.
+
+(* OUTSIDE the guard "template not flat": a template whose unwhitened waveform is constant on every channel
+   (au = 0) is rescaled to NaN in every entry (v / 0, whatever v is: 0/0 with member spikes, NaN/0 without),
+   full shape, and its per-template amplitude, when it has member spikes, is 0 (not NaN). *)
+Theorem C09_rescaled_flat : forall (i : amp_in) (factor : Q) (o : amp_out QN) (n : nat) (t : mat),
+  amplitudes_true_Q i (Some factor) = Some o ->
+  nth_error (ai_data i) n = Some t -> Z.of_nat n < ai_nwav i ->
+  IsPeakAmp (unwh (ai_wmi i) t) (length t) (length (ai_wmi i)) 0 ->
+  AllNaN (length t) (length (ai_wmi i)) (nth n (ao_phys o) []) /\
+  (In (Z.of_nat n) (ai_spikes i) -> exists v, nth_error (ao_tamps o) n = Some (Some v) /\ (v == 0)%Q).
+Proof. exact rescaled_flat_thm. Qed.
+Print Assumptions C09_rescaled_flat.
+
+(* the boolean checkers are also COMPLETE: they accept every output that satisfies the declarative statement,
+   so a clause 25 / 22 alarm of the comparator is never an artefact of the checker *)
+Theorem C09_checker_complete_channels : forall (nc : nat) (data : list mat) (out : list Z),
+  data_ok nc data = true -> Spec_channels nc data out -> peak_channels_b nc data out = true.
+Proof. exact peak_channels_b_complete. Qed.
+Print Assumptions C09_checker_complete_channels.
+
+Theorem C09_checker_complete_nan : forall (i : amp_in) (finite : list bool),
+  length finite = length (ai_data i) ->
+  (forall n, (n < length (ai_data i))%nat -> (nth n finite true = false <-> ~ In (Z.of_nat n) (ai_spikes i))) ->
+  nan_iff_empty_b i finite = true.
+Proof. exact nan_iff_empty_b_complete. Qed.
+Print Assumptions C09_checker_complete_nan.
+
+(* ... hence the model's own peak channels are the only output the checker accepts *)
+Theorem C09_checker_channels_exact : forall (nc : nat) (data : list mat) (out : list Z),
+  data_ok nc data = true -> (peak_channels_b nc data out = true <-> channels nc data = Some out).
+Proof.
+  intros nc data out Hok. split.
+  - intros H. pose proof (peak_channels_b_sound nc data out Hok H) as [L S].
+    unfold channels. rewrite Hok. f_equal. pose proof (channels_thm nc data _ ltac:(unfold channels; rewrite Hok; reflexivity)) as [L' S'].
+    apply (nth_ext _ _ 0 0); [lia|]. intros n Hn. rewrite L' in Hn.
+    destruct (nth_error_lt_some data n Hn) as [t Ht].
+    destruct (S n t Ht) as (c & Ec & Hc). destruct (S' n t Ht) as (c' & Ec' & Hc').
+    rewrite (nth_error_nth' _ _ _ 0 Ec), (nth_error_nth' _ _ _ 0 Ec'), (IsPeakChannel_unique _ _ _ _ _ Hc Hc'). reflexivity.
+  - intros H. apply peak_channels_b_complete; [exact Hok|]. now apply channels_thm.
+Qed.
+Print Assumptions C09_checker_channels_exact.
+
+(* OUTSIDE the dense reading (outcome only).  A feature store loaded without pc_feature_ind.npy has no column
+   table (sparse_features.cols is None): get_depths raises (TypeError: None is not subscriptable) exactly when the
+   store has one row per spike, and returns None otherwise (the row-count exit comes first). *)
+Theorem C09_depths_nocols : forall nspikes nrows : Z,
+  (nrows = nspikes -> get_depths_nocols nspikes nrows = None) /\
+  (nrows <> nspikes -> get_depths_nocols nspikes nrows = Some None).
+Proof. exact get_depths_nocols_spec. Qed.
+Print Assumptions C09_depths_nocols.
+
+(* sparse templates: _channels returns the first stored channel of every template *)
+Theorem C09_sparse_channels : forall (cols : mat),
+  length (channels_sparse cols) = length cols /\
+  forall n r, nth_error cols n = Some r -> nth_error (channels_sparse cols) n = Some (nth 0 r 0).
+Proof.
+  intros cols. unfold channels_sparse. split; [apply map_length|].
+  intros n r H. now rewrite nth_error_map, H.
+Qed.
+Print Assumptions C09_sparse_channels.
+
+(* ---- link to C05 (TemplateModel.get_template, dense storage) ---------------------------------------------
+   `transpose nc t` is the stored (n_samples, nc) array t in C05's representation (list of columns). *)
+
+(* C05's _unwhiten of a dense template is C09's np.matmul(data[n], wmi), entry by entry (times template_scaling) *)
+Theorem C09_link_unwhitened : forall (W : mat) (sc : Z) (t : mat),
+  (1 <= length W)%nat -> (1 <= length t)%nat -> forallb (row_ok (length W)) t = true ->
+  exists U, C05.Model.unwhiten_dense W sc (transpose (length W) t) = Some U /\
+    length U = length W /\
+    (forall c, (c < length W)%nat -> length (nth c U []) = length t) /\
+    forall s c, (s < length t)%nat -> (c < length W)%nat -> nth s (nth c U []) 0 = unwh W t s c * sc.
+Proof. exact link_unwhitened. Qed.
+Print Assumptions C09_link_unwhitened.
+
+Theorem C09_link_unwhitened_same : forall (W : mat) (t : mat),
+  (1 <= length W)%nat -> (1 <= length t)%nat -> forallb (row_ok (length W)) t = true ->
+  C05.Model.unwhiten_dense W 1 (transpose (length W) t) = Some (transpose (length W) (matmulZ t W (length W))).
+Proof. exact link_unwhitened_same. Qed.
+Print Assumptions C09_link_unwhitened_same.
+
+(* per-channel peak-to-peak and first arg-max: the two models compute the same vectors / indices *)
+Theorem C09_link_amplitudes : forall (nc : nat) (t : mat),
+  map C05.Model.ptp (transpose nc t) = ch_amps nc t /\
+  C05.Model.argmax_first (map C05.Model.ptp (transpose nc t)) = argmax (ch_amps nc t).
+Proof. intros nc t. split; [apply amps_agree|]. rewrite amps_agree. apply argmax_agree. Qed.
+Print Assumptions C09_link_amplitudes.
+
+(* "the largest channel peak-to-peak of the spike's unwhitened template" of C09_spike_amps (templates_amps_au[n])
+   IS the first entry of the amplitude vector of get_template(n) -- the record that C05 proves aligned
+   (column j = unwhitened template on channel_ids[j], amplitude[j] = its peak-to-peak) and sorted -- and the
+   amplitude of that record's best_channel.  (template_scaling = 1: get_amplitudes_true does not apply it.) *)
+Theorem C09_link_peak_amp : forall argsort, C05.Spec.Argsort_ok argsort ->
+  forall (i : amp_in) (d : C05.Model.dataset) (n : nat) (t : mat) (rec : C05.Model.trec),
+  wf_amp i = true -> nth_error (ai_data i) n = Some t -> Z.of_nat n < ai_nwav i ->
+  C05.Model.d_cols d = None -> 0 <= C05.Model.d_nclosest d ->
+  C05.Model.d_wmi d = ai_wmi i -> C05.Model.d_scale d = 1 ->
+  nth_error (C05.Model.d_templates d) n = Some (transpose (length (ai_wmi i)) t) ->
+  C05.Model.get_template argsort d (C05.Model.default_request n) = Some rec ->
+  let a := nth 0 (C05.Model.t_amplitude rec) 0 in
+  nth_error (amps_au i) n = Some a /\
+  IsPeakAmp (unwh (ai_wmi i) t) (length t) (length (ai_wmi i)) a /\
+  (exists T, C05.Spec.Full_template d (C05.Model.default_request n) T /\
+             C05.Spec.Aligned T rec /\ C05.Spec.Sorted_rec T rec /\
+             a = C05.Spec.amp_of T (C05.Model.t_best rec)).
+Proof. exact link_peak_amp. Qed.
+Print Assumptions C09_link_peak_amp.
+
+(* _channels (templates_channels / clusters_channels, computed on the STORED template) returns the best_channel
+   of get_template(n, unwhiten=False), for any channel list / threshold of the request *)
+Theorem C09_link_peak_channel : forall argsort (nc : nat) (data : list mat) (out : list Z) (d : C05.Model.dataset)
+    (n : nat) (t : mat) (r : C05.Model.request) (rec : C05.Model.trec),
+  channels nc data = Some out -> nth_error data n = Some t ->
+  C05.Model.d_cols d = None ->
+  nth_error (C05.Model.d_templates d) n = Some (transpose nc t) ->
+  C05.Model.r_tid r = n -> C05.Model.r_unwhiten r = false ->
+  C05.Model.get_template argsort d r = Some rec ->
+  nth_error out n = Some (Z.of_nat (C05.Model.t_best rec)).
+Proof. exact link_peak_channel. Qed.
+Print Assumptions C09_link_peak_channel.
+
+(* ---- non-vacuity of the stage 3 theorems ---- *)
+(* negative amplitudes on template 1 (mean -9/2), template 0 flat with two spikes, template 2 without spikes *)
+Definition ex_edge : amp_in :=
+  mk_amp_in [ [[3; 3]; [3; 3]] ; [[0; 5]; [4; -1]] ; [[7; 7]; [7; 0]] ] [[1; 0]; [0; 1]] [1; 0; 1; 0] [-2; 3; -7; 5] 3.
+Example C09_ex_edge :
+  option_map (fun o => (ao_tamps o, nth 0 (ao_phys o) [], nth 1 (ao_phys o) []))
+             (amplitudes_true_Q ex_edge (Some 1%Q)) =
+  Some ([Some (inject_Z 0 / inject_Z 2 * 1); Some (inject_Z (-54) / inject_Z 2 * 1); None]%Q,
+        [[None; None]; [None; None]],
+        [[Some (inject_Z 0 * (inject_Z (-54) / inject_Z 2 / inject_Z 6) * 1); Some (inject_Z 5 * (inject_Z (-54) / inject_Z 2 / inject_Z 6) * 1)];
+         [Some (inject_Z 4 * (inject_Z (-54) / inject_Z 2 / inject_Z 6) * 1); Some (inject_Z (-1) * (inject_Z (-54) / inject_Z 2 / inject_Z 6) * 1)]]%Q).
+Proof. vm_compute. reflexivity. Qed.
+(* template 1 = [[0;5];[4;-1]]: peak-to-peak 4 and 6; scaled by -27/6: entries 0, -45/2, -18, 9/2: peak-to-peak 27 = |-27| *)
+Example C09_ex_edge_peaks :
+  IsPeakAmp (unwh (ai_wmi ex_edge) [[0; 5]; [4; -1]]) 2 2 6 /\ IsPeakAmp (unwh (ai_wmi ex_edge) [[3; 3]; [3; 3]]) 2 2 0.
+Proof.
+  split.
+  - exists [4; 6]. split; [split; [reflexivity|]|].
+    + intros [|[|c]] Hc; [| |exfalso; lia].
+      * exists 4, 0. vm_compute. repeat split; auto; intros x [<-|[<-|[]]]; discriminate.
+      * exists 5, (-1). vm_compute. repeat split; auto; intros x [<-|[<-|[]]]; discriminate.
+    + split; [cbn; auto|]. intros x [<-|[<-|[]]]; discriminate.
+  - exists [0; 0]. split; [split; [reflexivity|]|].
+    + intros [|[|c]] Hc; [| |exfalso; lia]; exists 3, 3; vm_compute; repeat split; auto; intros x [<-|[<-|[]]]; discriminate.
+    + split; [cbn; auto|]. intros x [<-|[<-|[]]]; discriminate.
+Qed.
+Example C09_ex_nocols : get_depths_nocols 9 9 = None /\ get_depths_nocols 9 4 = Some None /\
+                        channels_sparse [[1; 0; 2]; [2; 1; 0]] = [1; 2].
+Proof. repeat split. Qed.
+(* the link on C05's own example dataset (C05_ex_dense: amplitudes 3, 10, 28, 9; record amplitude [28; 10]) *)
+Definition ex_link_t : mat := [[0; 0; 0; 0]; [5; 3; 9; 7]; [0; 0; 0; 0]].       (* rows of C05's template 0 *)
+Definition ex_link_in : amp_in :=
+  mk_amp_in [ex_link_t] [[0; 2; 0; 0]; [1; 0; 0; 0]; [0; 0; 0; -1]; [0; 0; 4; 0]] [0; 0] [1; 2] 1.
+Example C09_ex_link :
+  transpose 4 ex_link_t = [[0; 5; 0]; [0; 3; 0]; [0; 9; 0]; [0; 7; 0]] /\
+  wf_amp ex_link_in = true /\ amps_au ex_link_in = [28] /\
+  option_map C05.Model.t_amplitude
+    (C05.Model.get_template NpSort.stable_argsort
+       (C05.Model.mkds [transpose 4 ex_link_t] None (ai_wmi ex_link_in) 1
+          [C05.Model.mkpos 0 0; C05.Model.mkpos 0 20; C05.Model.mkpos 0 40; C05.Model.mkpos 0 60] [0; 1; 1; 1] 2 (C05.Model.mkthr 0 1))
+       (C05.Model.default_request 0)) = Some [28; 10] /\
+  channels 4 [ex_link_t] = Some [2].
+Proof. repeat split; vm_compute; reflexivity. Qed.
